@@ -407,6 +407,47 @@ def _run_coordforms(case, ck):
         ck.trans += 2
         _same(ck, "integer-coordinates", th, a, b, "%s: point list with "
               "integer coordinates vs the same points as floats" % th)
+    # ---- the same positions stored in other numeric types ------------------
+    xu = np.array([0, 1, 2, 3, 0])
+    yu = np.array([1, 0, 2, 1, 3])
+    zu = np.zeros(5)
+    ref = None
+    scat_f = scat
+    from holopy.scattering import Sphere
+    if type(scat) is Sphere:
+        # a centre written with integers (pixel units), beside which
+        # unsigned coordinates would have to go negative
+        scat = Sphere(n=scat.n, r=scat.r, center=(2, 1, 5))
+    for dt in ("float64", "uint8", "uint16", "uint64", "int8", "int16",
+               "float32", "float16"):
+        try:
+            a = _holo(hp.detector_points(x=xu.astype(dt), y=yu.astype(dt),
+                                         z=zu), scat, _theory(th)[1]).values
+        except Exception as e:
+            if H.is_refusal(e):
+                break
+            raise
+        ck.trans += 1
+        if ref is None:
+            ref = a
+            continue
+        _same(ck, "coordinate-dtype", th, a, ref, "%s: point list whose x, y "
+              "are stored as %s vs the same positions as float64" % (th, dt))
+    g64 = hp.detector_grid((3, 4), 1.0)
+    for dt in ("uint16", "float32"):
+        g = g64.assign_coords(x=g64.x.values.astype(dt),
+                              y=g64.y.values.astype(dt))
+        try:
+            a = _holo(g, scat, _theory(th)[1]).values
+            b = _holo(g64, scat, _theory(th)[1]).values
+        except Exception as e:
+            if H.is_refusal(e):
+                break
+            raise
+        ck.trans += 2
+        _same(ck, "coordinate-dtype", th, a, b, "%s: grid whose axes are "
+              "stored as %s vs float64" % (th, dt))
+    scat = scat_f
     # ---- spherical detector points vs the same locations in Cartesian ----
     c = np.asarray(scat.center, float) if scat.center is not None else None
     if c is not None and not th.startswith("mielens"):
